@@ -61,6 +61,8 @@ structure DiagEntry where
 structure M where
   ctx : Ctx := {}
   heap : List (List Val) := []
+  /-- hash maps: association lists (the *reference dictionary*: keys compared with `value::operator==`) -/
+  maps : List (List (Val × Val)) := []
   /-- namespaces: 0 mission, 1 ui, 2 parsing, 3 profile -/
   nss : List (List (Name × Val)) := [[], [], [], []]
   /-- `m_runtime_error` -/
@@ -132,5 +134,8 @@ def nsSet (nss : List (List (Name × Val))) (id : Nat) (vs : List (Name × Val))
 def M.arr (m : M) (id : Nat) : List Val := m.heap.getD id []
 def M.setArr (m : M) (id : Nat) (xs : List Val) : M := { m with heap := m.heap.set id xs }
 def M.alloc (m : M) (xs : List Val) : M × Nat := ({ m with heap := m.heap ++ [xs] }, m.heap.length)
+def M.map (m : M) (id : Nat) : List (Val × Val) := m.maps.getD id []
+def M.setMap (m : M) (id : Nat) (kv : List (Val × Val)) : M := { m with maps := m.maps.set id kv }
+def M.allocMap (m : M) (kv : List (Val × Val)) : M × Nat := ({ m with maps := m.maps ++ [kv] }, m.maps.length)
 
 end Sqf.VM
